@@ -42,6 +42,10 @@ func nondetBytes(name string, n int) []byte {
 
 // verifChoice is a case split: the executor explores every value 0..n-1 as a separate path.
 func verifChoice(name string, n int) int {
+	if n == 0 {
+		verifAssumeFail = true
+		panic(verifStop{})
+	}
 	v := int(verifNext())
 	if v < 0 || v >= n {
 		verifAssumeFail = true
